@@ -517,6 +517,11 @@ def part_histories(ck, exe, model):
                 ck.count("warm-compared:%s:%s" % (kind, w))
                 sig_ctx = "%s:%s" % (kind, w)
                 okst = [c for c in refs if compatible(s2["status"], c["status"])]
+                if not okst and s2["status"] == "INFEASIBLE" and all(c["status"] == "UNBOUNDED" and c.get("iters") == "0" for c in refs):
+                    # the reference verdict UNBOUNDED was given by the simplifier without a simplex iteration: it says "dual infeasible", i.e. no
+                    # finite optimum, and does not claim a feasible point (read like this in C08 as well); INFEASIBLE does not contradict it
+                    ck.count("presolve-unbounded-vs-warm-infeasible")
+                    continue
                 if not okst and (s2["status"].startswith("ABORT") or s2["status"] == "OPTIMAL_UNSCALED_VIOLATIONS"):
                     # the warm-started solve stops at a limit or reports cycling: an admitted non-answer, counted
                     ck.count("warm-solve-gave-up:%s" % s2["status"])
